@@ -36,6 +36,7 @@ from frappy.errors import BadValueError, CommunicationFailedError, ConfigError, 
 from frappy.lib import formatException, mkthread, UniqueObject
 from frappy.params import Accessible, Command, Parameter, Limit, PREDEFINED_ACCESSIBLES
 from frappy.properties import HasProperties, Property
+from frappy.rwhandler import Handler
 from frappy.logging import RemoteLogHandler
 
 # TODO: resolve cirular import
@@ -211,7 +212,7 @@ class HasAccessibles(HasProperties):
             if prefix == 'do':
                 raise ProgrammingError(f'{cls.__name__!r}: old style command {attrname!r} not supported anymore')
             if (prefix in ('read', 'write') and attrname not in cls.wrappedAttributes
-                    and not hasattr(func, 'poll')):  # may be a handler, which always has a poll attribute
+                    and not isinstance(func, Handler)):  # a handler object is no access method by itself
                 raise ProgrammingError(f'{cls.__name__}.{attrname} defined, but {pname!r} is no parameter')
 
         try:
